@@ -560,8 +560,10 @@ func (w *queueWorld) checkState(quiescent bool) {
 			w.Violate("C07", "independent-not-started", "independent job "+rj.Name+" is due, system at rest, not started", w.features()...)
 		case p == execution.ConcurrencyPolicyAllow || p == "":
 			w.Violate("C06", "allow-not-started", "Allow job "+rj.Name+" is due, system at rest, not started", w.features()...)
+			w.Violate("C07", "due-job-not-started", "Allow job "+rj.Name+" is due, system at rest, not started", w.features()...)
 		case p == execution.ConcurrencyPolicyEnqueue && truth < max:
 			w.Violate("C06", "enqueue-stuck", fmt.Sprintf("Enqueue job %s is due, %d/%d active, system at rest, not started", rj.Name, truth, max), w.features()...)
+			w.Violate("C07", "due-job-not-started", fmt.Sprintf("job %s is due and its concurrency policy allows it (%d/%d active), system at rest, not started", rj.Name, truth, max), w.features()...)
 		case p == execution.ConcurrencyPolicyForbid:
 			w.Violate("C06", "forbid-undecided", fmt.Sprintf("Forbid job %s is due, system at rest, neither started nor refused (%d/%d active)", rj.Name, truth, max), w.features()...)
 		}
